@@ -1,18 +1,22 @@
-(* C07 — Standalone type and field-set parsing consume the whole input.  PARTIAL.
+(* C07 — Standalone type and field-set parsing consume the whole input.
 
-   Full statements (not proved; they need the grammar-level correctness of ty::parse / selection, which is
-   C05's reference grammar):
-     C07_type_exact     : errors (parse_type s) = [] ->
-                          exists t, significant (lex_all s) = type_tokens t ++ [Eof]
-     C07_fieldset_exact : errors (parse_selection_set s) = [] ->
-                          significant (lex_all s) is `sel` or `{ sel }` followed by Eof, sel one or more selections
-   Proved here, for all item lists / limits: (1) both entries read to the end of the stream before returning;
-   (2) the part of the property that the repaired code added: whatever follows the construct is reported --
-   if no error is on record after trailing_tokens_are_errors, only ignored tokens stood between the end of the
-   construct and Eof.  What is NOT proved: that the construct itself is one well-formed type / selection set when
-   no error is reported (exercised by the correspondence run and its oracle only). *)
+   Proved here, for every source string and every recursion limit (parser model Parse/Grammar.v + Parse/Entry.v on the
+   items of the lexer model Lex.Fun.lex_all; reference Parse/RefGrammar.v):
+     C07_type_exact     : no error reported by parse_type  ->  the significant tokens of the input are exactly one
+                          Type of the reference grammar (rg_type consumes all of them)               -- FULL
+     C07_type_accepts   : the converse, when the recursion limit exceeds the number of `[` (a bound on nesting)
+     C07_fieldset_exact : no error reported by parse_selection_set  ->  the significant tokens are exactly
+                          `{ Selection+ }` or `Selection+` of the RELAXED grammar (Parse/RefLenient.v: the reference
+                          plus the parser's known leniencies); outside the decidable class rgl_known_field_set they
+                          are exactly that of the reference grammar.  The unrestricted statement is false of the
+                          code (C07_fieldset_exact_refuted: `f(a)`, an argument without a value, C05's finding).
+     C07_fieldset_accepts : everything the reference accepts is parsed without error (recursion limit above the
+                          number of `{`, `[`, `:` tokens + 1).
+   and, for all item lists / limits (older, weaker facts kept): both entries read to the end of the stream before
+   returning; whatever follows the construct is reported. *)
 From ApolloVerif Require Import Base.Chars Lex.Item Lex.Fun Parse.Outcome Parse.Builder Parse.Limits Parse.Monad
-  Parse.Grammar Parse.Entry Parse.LosslessDefs Parse.Lossless Parse.SilentInst Parse.EntryEnd.
+  Parse.Grammar Parse.Entry Parse.LosslessDefs Parse.Lossless Parse.SilentInst Parse.EntryEnd
+  Parse.RefGrammar Parse.RefLenient Parse.RefLinkBase Parse.RefLinkTop.
 
 Theorem C07_type_entry_reaches_eof_partial : forall fuel dbg rl items u s',
   g_type_entry fuel (p_init_state dbg rl items) = POk (u, s') -> at_end s' /\ ps_pending s' = [].
@@ -53,4 +57,71 @@ Example C07_nonvacuous :
   errs_of (parse_selection_set_items false 500 (lex_all [97;32;125;32;98])) = Some 2 /\
   errs_of (parse_selection_set_items false 500 (lex_all [123;32;97;32;125;32;125])) = Some 1 /\
   errs_of (parse_selection_set_items false 500 (lex_all [32;97;32;123;32;98;32;125;32])) = Some 0.
+Proof. vm_compute. repeat split. Qed.
+
+(* ---- exactness against the reference grammar (rg_significant = the input's tokens without Whitespace, Comment,
+        Comma and Eof, None on a lexical error; rg_type / rg_field_set = the reference recognisers, RgOk [] = all
+        tokens consumed; rl_weight counts the `{`, `[`, `:` tokens) ---- *)
+Theorem C07_type_exact : forall dbg rl s r,
+  parse_type_items dbg rl (lex_all s) = POk r -> pr_errors r = [] ->
+  exists ts, rg_significant (lex_all s) = Some ts /\ rg_type ts = RgOk [].
+Proof. exact rl_type_exact_source. Qed.
+Check C07_type_exact : forall dbg rl s r,
+  parse_type_items dbg rl (lex_all s) = POk r -> pr_errors r = [] ->
+  exists ts, rg_significant (lex_all s) = Some ts /\ rg_type ts = RgOk [].
+Print Assumptions C07_type_exact.
+
+Theorem C07_type_accepts : forall dbg rl s r ts,
+  parse_type_items dbg rl (lex_all s) = POk r -> rg_significant (lex_all s) = Some ts ->
+  rg_type ts = RgOk [] -> rl_weight ts < rl -> pr_errors r = [].
+Proof. exact rl_type_accepts_source. Qed.
+Check C07_type_accepts : forall dbg rl s r ts,
+  parse_type_items dbg rl (lex_all s) = POk r -> rg_significant (lex_all s) = Some ts ->
+  rg_type ts = RgOk [] -> rl_weight ts < rl -> pr_errors r = [].
+Print Assumptions C07_type_accepts.
+
+Theorem C07_fieldset_exact : forall dbg rl s r, 0 < rl ->
+  parse_selection_set_items dbg rl (lex_all s) = POk r -> pr_errors r = [] ->
+  exists ts, rg_significant (lex_all s) = Some ts /\ rgl_field_set rgl_parser ts = RgOk [] /\
+             (rgl_known_field_set ts = false -> rg_field_set ts = RgOk []).
+Proof. exact rl_field_set_exact_source. Qed.
+Check C07_fieldset_exact : forall dbg rl s r, 0 < rl ->
+  parse_selection_set_items dbg rl (lex_all s) = POk r -> pr_errors r = [] ->
+  exists ts, rg_significant (lex_all s) = Some ts /\ rgl_field_set rgl_parser ts = RgOk [] /\
+             (rgl_known_field_set ts = false -> rg_field_set ts = RgOk []).
+Print Assumptions C07_fieldset_exact.
+
+Theorem C07_fieldset_accepts : forall dbg rl s r ts,
+  parse_selection_set_items dbg rl (lex_all s) = POk r -> rg_significant (lex_all s) = Some ts ->
+  rg_field_set ts = RgOk [] -> rl_weight ts + 1 < rl -> pr_errors r = [].
+Proof. exact rl_field_set_accepts_source. Qed.
+Check C07_fieldset_accepts : forall dbg rl s r ts,
+  parse_selection_set_items dbg rl (lex_all s) = POk r -> rg_significant (lex_all s) = Some ts ->
+  rg_field_set ts = RgOk [] -> rl_weight ts + 1 < rl -> pr_errors r = [].
+Print Assumptions C07_fieldset_accepts.
+
+(* the unrestricted field-set statement is false of the code: `f(a)` is parsed without error (0 errors), the
+   reference rejects its tokens, and they are in the known class *)
+Theorem C07_fieldset_exact_refuted :
+  rl_errs_of (parse_selection_set_items false 500 (lex_all rl_field_set_witness)) = Some 0 /\
+  rg_significant (lex_all rl_field_set_witness) = Some rl_field_set_witness_tokens /\
+  rg_field_set rl_field_set_witness_tokens = RgNo /\ rgl_known_field_set rl_field_set_witness_tokens = true.
+Proof. exact rl_field_set_refuted. Qed.
+Check C07_fieldset_exact_refuted :
+  rl_errs_of (parse_selection_set_items false 500 (lex_all rl_field_set_witness)) = Some 0 /\
+  rg_significant (lex_all rl_field_set_witness) = Some rl_field_set_witness_tokens /\
+  rg_field_set rl_field_set_witness_tokens = RgNo /\ rgl_known_field_set rl_field_set_witness_tokens = true.
+Print Assumptions C07_fieldset_exact_refuted.
+
+(* non-vacuity: `[Int!]!` and ` a { b } ` are parsed without error and are accepted by the reference to the end *)
+Example C07_exact_nonvacuous :
+  errs_of (parse_type_items false 500 (lex_all [32;91;73;110;116;33;93;33;32])) = Some 0 /\
+  (rg_significant (lex_all [32;91;73;110;116;33;93;33;32]) =
+     Some [(TkLBracket, [91]); (TkName, [73;110;116]); (TkBang, [33]); (TkRBracket, [93]); (TkBang, [33])] /\
+   rg_type [(TkLBracket, [91]); (TkName, [73;110;116]); (TkBang, [33]); (TkRBracket, [93]); (TkBang, [33])] = RgOk []) /\
+  errs_of (parse_selection_set_items false 500 (lex_all [32;97;32;123;32;98;32;125;32])) = Some 0 /\
+  (rg_significant (lex_all [32;97;32;123;32;98;32;125;32]) =
+     Some [(TkName, [97]); (TkLCurly, [123]); (TkName, [98]); (TkRCurly, [125])] /\
+   rg_field_set [(TkName, [97]); (TkLCurly, [123]); (TkName, [98]); (TkRCurly, [125])] = RgOk [] /\
+   rgl_known_field_set [(TkName, [97]); (TkLCurly, [123]); (TkName, [98]); (TkRCurly, [125])] = false).
 Proof. vm_compute. repeat split. Qed.
